@@ -171,6 +171,7 @@ def build(prog, s, caps, embed=False, pinned=False, ctx=None):
         return tbl.c.a if tn == "i" else tbl.c.b
 
     cte_objs = []
+    from_ctes = [set()]
 
     def item(e, tbl, ctes, agg=False, nofrom=False, depth=0):
         kind = e[0]
@@ -199,10 +200,12 @@ def build(prog, s, caps, embed=False, pinned=False, ctx=None):
             if kind == "XS" or agg or nofrom:
                 out.features.add("cte-in-subquery")
                 return select(func.max(cc)).scalar_subquery()
+            if depth == 0 or tbl is t:
+                from_ctes[0].add(e[1] % len(ctes))
             return cc
         if kind == "Q":
             out.features.add("scalar-subquery")
-            inner = item(e[1], u, ctes, agg=True, depth=depth + 1) if depth < 2 else tg(0)
+            inner = item(e[1], u, ctes, depth=depth + 1) if depth < 2 else tg(0)
             q = select(func.max(inner))
             if e[2] is not None:
                 q = q.where(pred(e[2], u, ctes, depth + 1))
@@ -296,12 +299,14 @@ def build(prog, s, caps, embed=False, pinned=False, ctx=None):
         cols = [item(e, t, avail, nofrom=not cs.get("tbl", True)).label(f"v{j}") for j, e in enumerate(cs["items"])]
         q = select(*cols)
         if cs.get("tbl", True):
+            q = q.select_from(t)
             for p in cs.get("preds", []):
                 q = q.where(pred(p, t, avail))
             if cs.get("lim"):
                 q = q.order_by(t.c.id).limit(2 + s)
         cte_objs.append(q.cte(f"c{i}"))
         out.features.add("cte")
+        from_ctes[0] = set()
     ctes = cte_objs
     shape = prog["shape"]
     agg = prog.get("agg") is not None and shape == "select"
@@ -327,8 +332,8 @@ def build(prog, s, caps, embed=False, pinned=False, ctx=None):
                 order.append(t.c.c)
             else:
                 order.append(t.c.id)
-                for c in ctes:
-                    order.extend(list(c.c))
+                for ci in sorted(from_ctes[0]):
+                    order.extend(list(ctes[ci].c))
             q = q.order_by(*order)
         if lim is not None:
             q = q.limit(lim + s)
@@ -352,11 +357,15 @@ def build(prog, s, caps, embed=False, pinned=False, ctx=None):
         out.features.add("insert-from-select")
     else:
         def vitem(e):
-            if e[0] == "X":
-                e = ["XS"] + list(e[1:])
-            if e[0] == "C" and shape == "insert":
-                e = ["B", e[1]]
-            return item(e, t, ctes)
+            def fix(x):
+                if isinstance(x, list) and x and x[0] == "X":
+                    return ["XS"] + list(x[1:])
+                if isinstance(x, list):
+                    return [fix(y) for y in x]
+                return x
+
+            e = fix(e)
+            return item(e, t, ctes, nofrom=(shape == "insert"))
 
         vals = prog.get("vals") or {}
         if shape == "insert":
@@ -494,14 +503,37 @@ def _exec_recorded(url, ps_override, prog, pinned, ctx, sets=(0, 1), **ekw):
             for s in sets:
                 b = build(prog, s, caps, pinned=pinned, ctx=ctx if ps_override == "qmark" else None)
                 n0 = len(db.conns[0].statements) if db.conns else 0
-                if b.params:
-                    conn.execute(b.stmt, b.params)
-                else:
-                    conn.execute(b.stmt)
+                try:
+                    if b.params:
+                        conn.execute(b.stmt, b.params)
+                    else:
+                        conn.execute(b.stmt)
+                except Exception as e:
+                    _classify_exec_error(e, b, f"{url} paramstyle={eng.dialect.paramstyle}")
+                    raise
                 res.append((b, list(db.conns[0].statements[n0:])))
         return eng.dialect.paramstyle, res, eng.dialect
     finally:
         eng.dispose()
+
+
+def _classify_exec_error(e, b, where):
+    """map the two confirmed root causes to their signatures (anything else propagates unchanged)"""
+    import traceback
+
+    from sqlalchemy import exc
+
+    if not isinstance(e, exc.StatementError) or e.orig is None:
+        return
+    frames = [f.name for f in traceback.extract_tb(e.orig.__traceback__)]
+    if not frames or frames[-1] != "_process_parameters_for_postcompile":
+        return
+    if isinstance(e.orig, KeyError) and {"literal-execute", "escaped-name"} <= b.features:
+        raise Violation("C04/literal-execute-escaped-name", f"{where}: literal_execute bind whose name needs escaping cannot be executed: KeyError {e.orig} "
+                        "(_process_parameters_for_postcompile pops the escaped name from parameters keyed by the unescaped name)", observed=str(e)[:600])
+    if isinstance(e.orig, AssertionError) and "tuple-in" in b.features:
+        raise Violation("C04/expanding-tuple-bind-reused", f"{where}: an expanding tuple bind used twice in one statement fails 'assert values is not None' "
+                        "in _process_parameters_for_postcompile", observed=str(e)[:600])
 
 
 def _witness(prog, s, dialect, flavor, pinned, percent="python"):
@@ -755,12 +787,12 @@ def constval(c, s):
     return f"{'AB'[s]}K{c}" if c == "b" else 7000 * (s + 1) + COLS.index(c)
 
 
-def build_many(prog, s, caps):
+def build_many(prog, s, caps, autoinc=True, ctx=None):
     import sqlalchemy as sa
     from sqlalchemy import Integer, String, bindparam, func, insert, literal_column
 
     md = sa.MetaData()
-    t = sa.Table("t", md, sa.Column("id", Integer, primary_key=True, autoincrement=False), sa.Column("a", Integer), sa.Column("b", String(50)), sa.Column("c", Integer))
+    t = sa.Table("t", md, sa.Column("id", Integer, primary_key=True, autoincrement=autoinc), sa.Column("a", Integer), sa.Column("b", String(50)), sa.Column("c", Integer))
     out = Built()
     out.table = t
     modes = {c: prog["cols"][i] % 4 for i, c in enumerate(COLS)}
@@ -785,6 +817,12 @@ def build_many(prog, s, caps):
             out.features.add("tagged-values-bind")
         else:
             cname = f"{NAMES[names[i] % len(NAMES)]}k{50 + i}"
+            if cname.startswith(c) and not prog.get("pinned"):
+                # known finding C04/imv-named-prefix-replace: a second bind in the column's VALUES expression whose
+                # name extends the column's own parameter name is corrupted by the non-positional imv rewrite
+                if ctx is not None and s == 0:
+                    ctx.exclude("bind in a VALUES expression whose name starts with the column parameter name (known finding C04/imv-named-prefix-replace)")
+                cname = "z" + cname
             out.const_names[c] = cname
             if any(ch in cname for ch in "%():.[] "):
                 out.features.add("escaped-name")
@@ -811,7 +849,7 @@ def build_many(prog, s, caps):
             out.features.add("bind-after-values")
             if any(ch in rname for ch in "%():.[] "):
                 out.features.add("escaped-name")
-        stmt = stmt.returning(*rc, sort_by_parameter_order=bool(prog.get("sorted")))
+        stmt = stmt.returning(*rc, sort_by_parameter_order=bool(prog.get("sorted")) and not multi and autoinc)
         out.ret = True
         out.features.add("returning")
     out.stmt = stmt
@@ -828,6 +866,11 @@ def build_many(prog, s, caps):
                 row.append(rowval(c, r, s) + constval(c, s))
         out.expected.append(tuple(row))
     return out
+
+
+def T_escape(name):
+    m = {"%": "P", "(": "A", ")": "Z", ":": "C", ".": "_", "[": "_", "]": "_", " ": "_"}
+    return "".join(m.get(ch, ch) for ch in name)
 
 
 def _split_top(R, i, end):
@@ -898,7 +941,7 @@ def check_many_statement(R, b, s, row0, nrows_in_stmt, ps, where, statement):
     return ngroups
 
 
-def _run_many_recorded(url, pso, prog, flavor):
+def _run_many_recorded(url, pso, prog, flavor, ctx=None):
     from vf.fakedb import recording_engine
 
     kw = {"insertmanyvalues_page_size": prog["page"]}
@@ -910,7 +953,7 @@ def _run_many_recorded(url, pso, prog, flavor):
         res = []
         with eng.connect() as conn:
             for s in (0, 1):
-                b = build_many(prog, s, caps)
+                b = build_many(prog, s, caps, autoinc=flavor != "mssql", ctx=ctx if pso == "qmark" else None)
                 n0 = len(db.conns[0].statements) if db.conns else 0
                 if b.params is None:
                     conn.execute(b.stmt)
@@ -920,6 +963,15 @@ def _run_many_recorded(url, pso, prog, flavor):
         return eng.dialect.paramstyle, res
     finally:
         eng.dispose()
+
+
+def _analyze_many(statement, p, ps, flavor, percent, many, b, where):
+    try:
+        return analyze(statement, p, ps, flavor, percent)
+    except Violation as v:
+        if v.signature.startswith("C04/resolve/missing-param") and not many and ps in ("named", "pyformat") and any(T_escape(n).startswith(c) for c, n in b.const_names.items()):
+            raise Violation("C04/imv-named-prefix-replace", f"{where}: insertmanyvalues rewrote a bind whose name extends the column parameter name: {v.message}", observed=v.observed)
+        raise
 
 
 def check_many(case, ctx):
@@ -933,7 +985,7 @@ def check_many(case, ctx):
         for url, pso, flavor, percent in configs:
             if url not in refs:
                 refs[url] = _run_many_recorded(url, "named", prog, flavor)[1] if pso is not None else None
-            ps, res = _run_many_recorded(url, pso, prog, flavor) if pso != "named" else ("named", refs[url])
+            ps, res = _run_many_recorded(url, pso, prog, flavor, ctx) if pso != "named" else ("named", refs[url])
             for s, (b, stmts) in enumerate(res):
                 feats |= b.features
                 where0 = f"{url} paramstyle={ps} set={'AB'[s]}"
@@ -944,7 +996,7 @@ def check_many(case, ctx):
                         feats.add("executemany")
                     for pi, p in enumerate(psets):
                         where = f"{where0} stmt#{si} paramset#{pi}"
-                        R = analyze(statement, p, ps, flavor, percent)
+                        R = _analyze_many(statement, p, ps, flavor, percent, many, b, where)
                         ng = check_many_statement(R, b, s, delivered, None, ps, where, [statement, repr(p)])
                         if ng > 1:
                             feats.add("batch>1")
@@ -957,7 +1009,7 @@ def check_many(case, ctx):
                                 raise Violation(f"C04/many-statement-count/{ps}", f"{where}: more cursor calls than the named reference", observed=[x[0] for x in stmts])
                             rstatement, rparams, rmany = rstmts[si]
                             rp = rparams[pi] if rmany else rparams
-                            compare_ref(R, analyze(rstatement, rp, "named", flavor), ps, where, [statement, repr(p)], rstatement)
+                            compare_ref(R, _analyze_many(rstatement, rp, "named", flavor, "python", rmany, rb, where + " (named reference)"), ps, where, [statement, repr(p)], rstatement)
                 if delivered != len(b.rows):
                     raise Violation(f"C04/many-row-count/{ps}", f"{where0}: {delivered} rows delivered to the cursor, {len(b.rows)} given", observed=[x[0] for x in stmts])
                 if len(stmts) > 1:
@@ -1113,8 +1165,8 @@ def _many_programs(draw):
 
 def subs(tier):
     return [
-        Generated("stmt", check_stmt, strategy=_programs(), quick=1400, thorough=60000),
-        Generated("live", check_live, strategy=_programs(), quick=1400, thorough=40000),
-        Generated("many", check_many, strategy=_many_programs(), quick=700, thorough=20000),
-        Generated("many_live", check_many_live, strategy=_many_programs(), quick=500, thorough=15000),
+        Generated("stmt", check_stmt, strategy=_programs(), quick=1000, thorough=60000, budget_s_quick=14.0),
+        Generated("live", check_live, strategy=_programs(), quick=800, thorough=40000, budget_s_quick=12.0),
+        Generated("many", check_many, strategy=_many_programs(), quick=600, thorough=20000, budget_s_quick=8.0),
+        Generated("many_live", check_many_live, strategy=_many_programs(), quick=300, thorough=15000, budget_s_quick=8.0),
     ]
